@@ -647,6 +647,39 @@ def check_C20(rep, tier):
                         "for strings that are not Pack images C20 only demands totality; disagreement with the parser machine is drift"]
 
 
+def _deep_documents(rep):
+    """Extremely deep / long documents offered to every parser and to verification, in a process of their own: a
+    panic is reported by the harness, the death of the process (stack overflow, allocation failure) is seen here and
+    attributed to single inputs, one process each."""
+    def run(k):
+        try:
+            return last_json(run_itv(["record", "C14deep", str(k)], timeout=600)), None
+        except ToolError as e:
+            return None, str(e)
+    res, died = run(0)
+    if res is not None:
+        rep.cov["deep_or_long_documents"] = res["inputs"]
+        rep.cov["evaluations"] += res["calls"]
+        for b in res["bad"]:
+            rep.mismatch({"kind": "panic", "entry": b.get("entry"), "doc": "deep or long document", "input": b.get("input")}, {"case": b})
+        return
+    k = 1
+    found = 0
+    while k <= 200:
+        r, d = run(k)
+        if r is not None:
+            if k > r["inputs"]:
+                break
+            for b in r["bad"]:
+                rep.mismatch({"kind": "panic", "entry": b.get("entry"), "doc": "deep or long document", "input": b.get("input")}, {"case": b})
+        else:
+            found += 1
+            rep.mismatch({"kind": "process_died", "entry": "deep_or_long_document", "input_index": k - 1}, {"case": {"record": ["C14deep", k], "error": d[:300]}})
+        k += 1
+    if not found:
+        raise ToolError("C14deep died when run over all inputs but not on any single one: " + (died or "")[:200])
+
+
 def _extreme_lengths(rep, prop):
     """Envelope encodings whose length fields hold extreme numbers, decoded in a process of their own: a panic
     is reported by the harness, the death of the process (allocation failure, stack overflow) is seen here."""
@@ -1253,6 +1286,7 @@ def check_C14(rep, tier):
     os.remove(trace)
     sh.cleanup()
     _extreme_lengths(rep, "C14")
+    _deep_documents(rep)
     res = last_json(run_itv(["record", "C14mut", "20000" if tier == "quick" else "2000000"], timeout=6000))
     rep.cov["byte_mutations"] = res["n"]
     rep.cov["mutation_outcomes"] = {k: res[k] for k in ("value", "error", "panic")}
